@@ -41,6 +41,23 @@ def _source(kind, members, form, scratch):
         return lambda: io.BytesIO(raw)
     p = os.path.join(scratch, "deckdir")
     D.write_dir(members, p)
+    if form == "dirlink":
+        # a directory-form package whose sub-directories are symbolic links to directories elsewhere (shared asset folders): the same
+        # members by name, reached through links
+        import shutil
+        real = os.path.join(scratch, "deckdir_real")
+        link = os.path.join(scratch, "deckdir_link")
+        shutil.rmtree(real, ignore_errors=True)
+        shutil.rmtree(link, ignore_errors=True)
+        os.rename(p, real)
+        os.makedirs(link)
+        for name in os.listdir(real):
+            src = os.path.join(real, name)
+            if os.path.isdir(src):
+                os.symlink(src, os.path.join(link, name), target_is_directory=True)
+            else:
+                shutil.copy(src, os.path.join(link, name))
+        return lambda: link
     return lambda: p
 
 
@@ -162,7 +179,7 @@ def main() -> int:
     else:
         paths = corpus.decks() if thorough else sorted(set(corpus.subset(6, E.seed()) + corpus.opc_key_decks()))
         npairs = 60 if thorough else 12
-    jobs = E.pmap(_deck_job, [(p, ("path", "stream", "dir"), npairs, E.seed(), work) for p in paths], procs=16, chunk=1)
+    jobs = E.pmap(_deck_job, [(p, ("path", "stream", "dir", "dirlink"), npairs, E.seed(), work) for p in paths], procs=16, chunk=1)
     if replay:
         for j in jobs:
             j["traces"] = [t for t in j["traces"] if t["id"] == rp["trace_id"]] or j["traces"][:1]
